@@ -25,7 +25,8 @@ BASE_FEAT = dict(
     p_int_pos=0.12,
     p_type_pos=0.12,
     p_dup_sig=0.08,
-    p_self=0.0,  # probability that the function is an overloaded *method* (all methods take self)
+    p_self=0.0,
+    p_proto=0.2,  # probability that the world has structural ABCs (subclass iff a marker attribute exists)  # probability that the function is an overloaded *method* (all methods take self)
     ncorpus=(4, 8),
     swarm_drop=0.35,  # probability to disable each optional kind in a world
 )
@@ -146,6 +147,17 @@ def gen_world(rng, f):
             deps.append({"name": f"P{i}", "bound": "object", "mod": mod, "eq": rng.randrange(mod)})
     hook_names = [h["name"] for h in hooks]
     dep_names = [d["name"] for d in deps]
+    protocols, markers = [], {}
+    if rng.random() < f.get("p_proto", 0):
+        nprot = rng.randint(1, 2)
+        for i in range(nprot):
+            # two protocols may test the same attribute: they are then subclasses of each other
+            attr = "q0" if (i == 0 or rng.random() < 0.5) else "q1"
+            protocols.append({"name": f"S{i}", "attr": attr})
+        for attr in sorted({p["attr"] for p in protocols}):
+            for nm in rng.sample(names, rng.randint(1, max(1, len(names) // 2))):
+                markers.setdefault(nm, []).append(attr)
+    ann_names = names + [p["name"] for p in protocols]
 
     max_ar = weighted(rng, f["arity"])
     min_ar = max_ar if rng.random() < 0.6 else max(1, max_ar - 1)
@@ -173,7 +185,10 @@ def gen_world(rng, f):
             if r < 0.7:
                 return ["t", rng.choice(names)]
             return ["t", "object"] if r < 0.85 else ["o"]
-        return gen_ann(rng, kinds, names, hook_names, dep_names)
+        a = gen_ann(rng, kinds, names, hook_names, dep_names)
+        if protocols and a[0] == "c" and rng.random() < 0.3:
+            a = ["c", rng.choice(ann_names[len(names):])]
+        return a
 
     methods = {}
     nmeth = rng.randint(*f["nmeth"])
@@ -210,6 +225,7 @@ def gen_world(rng, f):
         methods[mid] = {"params": params, "prio": prio, "body": body}
     spec = {
         "classes": classes, "virtual": virtual, "hooks": hooks, "deps": deps,
+        "protocols": protocols, "markers": markers,
         "methods": methods,
         "meta": {"min_ar": min_ar, "max_ar": max_ar, "flavour": flavour,
                  "has_kw": has_kw, "mixed": mixed,
